@@ -1,4 +1,5 @@
 import ExprModel.Types.HasType
+import ExprModel.Types.SrcDefects
 /- driver handlers for the type / name-resolution model (C16) -/
 namespace ExprModel.Drv
 open ExprModel
@@ -8,10 +9,10 @@ def bad : Sexp := .list [.atom "bad-request"]
 /-- `asis` (the code's current flags; `repaired` is an alias) | `aswas` (the pinned snapshot before the
 fixes), optionally suffixed `-rev` (iterate Go maps in reverse order) -/
 def defectsOfAtom : String → Option (NDefects × (Table → Table))
-  | "asis" => some (.asIs, id)
+  | "asis" => some (srcNDefects, id)        -- the flags derived from the source (= NDefects.asIs: Props/C16 src_flags_agree)
   | "repaired" => some (.repaired, id)
   | "aswas" => some (.asWas, id)
-  | "asis-rev" => some (.asIs, List.reverse)
+  | "asis-rev" => some (srcNDefects, List.reverse)
   | "repaired-rev" => some (.repaired, List.reverse)
   | "aswas-rev" => some (.asWas, List.reverse)
   | _ => none
@@ -142,34 +143,45 @@ def handleCheck : List Sexp → Sexp
     | _, _, _, _, _, _ => bad
   | _ => bad
 
-/-- `(c03-ref <env> <node>)`: the verdict of the reference typing rules (`synth` with the documented
-rule set) — the Spec side of the oracle for ill-typed mutants -/
+/-- `(c03-ref <env> <node> [<strict>])`: the verdict of the reference typing rules (`synth` with the
+documented rule set) — the Spec side of the oracle for ill-typed mutants; `strict` defaults to true -/
+def refVerdict (e : Env) (n : Node) (strict : Bool) : Sexp :=
+  -- the documented rule set, except that `filter`/`map` keep the static slice type the code reports:
+  -- that deviation is judged by comparing dynamic and static type (keys `…:filter-static-slice`,
+  -- `…:map-static-slice`), and judging the expressions that *use* such results by `[]interface{}`
+  -- would only repeat it
+  let cfg := cfgOfEnv .asIs { TDefects.repaired with staticSliceOf := true } e strict .none
+  match synth cfg [] n with
+  | some t => .list [.atom "well", Ty.optToSexp t, Sexp.bool (staticNode cfg [] n)]
+  | none =>
+    -- which rule rejects it: the error the checker with the documented rule set reports
+    let cfg2 := cfgOfEnv .asIs { TDefects.repaired with staticSliceOf := true, retypeNonLiteral := true } e strict .none
+    match check cfg n with
+    | .error _ c _ =>
+      -- `bad-argument` only because a non-literal arithmetic argument must not take the parameter's type?
+      if c == .badArgument && (synth cfg2 [] n).isSome then .list [.atom "ill", .atom "retyped-non-literal-argument"]
+      else .list [.atom "ill", .atom c.name]
+    | _ => .list [.atom "ill", .atom "panic"]
+
 def handleRef : List Sexp → Sexp
   | [.atom "c03-ref", e, n] =>
     match envOfSexp e, Node.ofSexp n with
-    | some e, some n =>
-      -- the documented rule set, except that `filter`/`map` keep the static slice type the code reports:
-      -- that deviation is judged by comparing dynamic and static type (keys `…:filter-static-slice`,
-      -- `…:map-static-slice`), and judging the expressions that *use* such results by `[]interface{}`
-      -- would only repeat it
-      let cfg := cfgOfEnv .asIs { TDefects.repaired with staticSliceOf := true } e true .none
-      match synth cfg [] n with
-      | some t => .list [.atom "well", Ty.optToSexp t, Sexp.bool (staticNode cfg [] n)]
-      | none =>
-        -- which rule rejects it: the error the checker with the documented rule set reports
-        let cfg2 := cfgOfEnv .asIs { TDefects.repaired with staticSliceOf := true, retypeNonLiteral := true } e true .none
-        match check cfg n with
-        | .error _ c _ =>
-          -- `bad-argument` only because a non-literal arithmetic argument must not take the parameter's type?
-          if c == .badArgument && (synth cfg2 [] n).isSome then .list [.atom "ill", .atom "retyped-non-literal-argument"]
-          else .list [.atom "ill", .atom c.name]
-        | _ => .list [.atom "ill", .atom "panic"]
+    | some e, some n => refVerdict e n true
     | _, _ => bad
+  | [.atom "c03-ref", e, n, strict] =>
+    match envOfSexp e, Node.ofSexp n, strict.asBool with
+    | some e, some n, some st => refVerdict e n st
+    | _, _, _ => bad
   | _ => bad
+
+/-- `(c16-srcflags)` → the five switches derived from vm/runtime.go and checker/checker.go -/
+def handleSrcFlags : List Sexp → Sexp
+  | _ => .list [.atom "ndefects", Sexp.bool srcNDefects.ptrFuncNotFetched, Sexp.bool srcNDefects.ptrIfaceFuncNotFetched,
+      Sexp.bool srcNDefects.fetchFnNoUnwrap, Sexp.bool srcNDefects.fetchDerefOnce, Sexp.bool srcNDefects.methodAsValue]
 
 def typesHandlers : List (String × (List Sexp → Sexp)) :=
   [("c16-table", handleTypes), ("c16-fields", handleTypes), ("c16-mset", handleTypes),
    ("c16-names", handleTypes), ("c16-member", handleTypes), ("c03-check", handleCheck),
-   ("c03-ref", handleRef)]
+   ("c03-ref", handleRef), ("c16-srcflags", handleSrcFlags)]
 
 end ExprModel.Drv
